@@ -12,10 +12,18 @@ func zzState() (*RingBuffer[int64], int64) {
 	for i := range items {
 		items[i] = zzrt.NondetInt64("item")
 	}
-	h := zzrt.NondetInt64("head")
-	l := zzrt.NondetInt64("len")
-	zzrt.Assume(0 <= h && h < m)
-	zzrt.Assume(0 <= l && l < m)
+	var h, l int64
+	if zzrt.Param("SYM") == 1 {
+		// head and length symbolic: the solver picks the geometry
+		h = zzrt.NondetInt64("head")
+		l = zzrt.NondetInt64("len")
+		zzrt.Assume(0 <= h && h < m)
+		zzrt.Assume(0 <= l && l < m)
+	} else {
+		// geometry enumerated (reaches larger capacities); values stay symbolic
+		h = int64(zzrt.Choose(int(m)))
+		l = int64(zzrt.Choose(int(m)))
+	}
 	t := (h + l) % m
 	rb := &RingBuffer[int64]{len: l, content: &buffer[int64]{items: items, head: h, tail: t, mod: m}}
 	return rb, m
